@@ -18,7 +18,7 @@ P = {
          "summation identity by induction in Coq; end-to-end differential check; exact identity oracle", "4 C03"),
  "C04": ("All-input theorems (PC04.v) in two layers: verified checkers (sufficiency over all elimination orders, truth of assertions with exact tallies, possibility) applied inside Coq to every output of compute_raire_assertions; "
          "and an executable model of the search itself (RaireAlgo.raire: frontier, dive, best ancestor, lower bound, de-duplication, subsumption) compared output-for-output with the implementation, about which the whole of C04 is proved for every run that does not exhaust its fuel "
-         "(non-empty output passes the checker; output empty iff no sufficient set of true assertions exists). Termination within the default fuel is checked per run, not proved. Brute-force oracle over all n! orders on the implementation.",
+         "(non-empty output passes the checker; output empty iff no sufficient set of true assertions exists; some fuel always suffices and results are fuel-monotone). That the default fuel constant suffices is checked per run, not proved. Brute-force oracle over all n! orders on the implementation.",
          "soundness/emptiness proof of an executable model of the RAIRE search in Coq + verified checkers applied to every implementation output; output-for-output differential check; brute-force n! oracle", "4 C04"),
  "C05": ("Theorems for all samples, cut points, tails, tests, estimators and bets (PC05.v): prefix/tail/truncation clauses of the history and predictability of every estimator/bet, with no hypotheses on ranges.",
          "sequential-machine model; predictability and prefix theorems in Coq; differential check; prefix/tail oracle on the implementation", "4 C05"),
@@ -35,15 +35,15 @@ P = {
  "C11": ("Theorems for all non-empty samples in [0,u] no longer than N (PC11.v): ALPHA (any estimator), betting (shipped bets in range) and SPRT report rationals in [0,1], one per observation, never NaN, overall = smallest (or last) entry; proved on the Xq model where numpy's inf/NaN are explicit. "
          "Kaplan-Kolmogorov (finite N), Kaplan-Markov and Kaplan-Wald are proved too (random_order true: smallest entry; false: last entry).",
          "refinement of the numpy-style model to a sequential spec + well-formedness proof in Coq; differential check incl. exhaustive small samples; range/NaN oracle", "4 C11"),
- "C12": ("Theorems (PC12.v): reported terms equal the sequential spec; product definitions while all null means are inside (0,u); p=0 / p=1 boundary clauses; ALPHA = betting for eta = mu(1+lam(u-mu)); conversions inverse. Kaplan products are checked by the exact-Fraction oracle and correspondence only.",
+ "C12": ("Theorems (PC12.v): reported terms equal the sequential spec; product definitions while all null means are inside (0,u); p=0 / p=1 boundary clauses; ALPHA = betting for eta = mu(1+lam(u-mu)); conversions inverse; Kaplan-Wald, Kaplan-Markov, Kaplan-Kolmogorov and SPRT histories equal min(1, 1/T_j) of their defining products. The same definitions are re-derived in exact arithmetic by an oracle on every implementation output, including samples of 65..3000 draws and other units.",
          "field identities and refinement proof in Coq; differential check; exact re-derivation oracle of every history from the published products", "4 C12"),
  "C13": ("Theorems for all samples and parameters in the documented ranges (PC13.v): ranges of every shipped estimator and bet, strictness of shrink-truncate above mu_j (up to the code's one-ulp truncation constant), non-negativity of factors; sqrt abstract.",
          "machine-invariant range proofs in Coq; differential check on grid and extreme streams; range oracle", "4 C13"),
  "C14": ("Theorems for every candidate set, duplicate-free ranking and (w,l,E) (PC14.v): audit assorter = (w-l+1)/2 of the generator's verdicts, mean/tally corollary, both RAIRE readers agree on whole files, re-tally; exhaustive correspondence over all partial rankings of <=4(5) candidates.",
          "induction on rankings in Coq; exhaustive differential check of both implementations; equality oracle", "4 C14"),
- "C15": ("Theorem that the verified `opt` equals the minimax difficulty over all sufficient sets of true assertions; every implementation output compared with it inside Coq and with a brute-force optimum. About the executable model of the search (compared output-for-output with the code): "
-         "every reported difficulty is the difficulty function of the reported tallies, and the largest one is >= opt (PARTIAL: <= opt, i.e. optimality of the search itself, is established per output by the verified optimum, not proved).",
-         "verified optimum checker in Coq applied to every implementation output; partial optimality theorems about the executable search model; brute-force optimum oracle", "4 C15"),
+ "C15": ("Theorems (PC15.v): the verified `opt` equals the minimax difficulty over all sufficient sets of true assertions; and the executable model of the RAIRE search (compared output-for-output with compute_raire_assertions on every run) returns a set whose largest difficulty EQUALS that optimum, "
+         "for every profile, candidate list, hint and both shipped difficulty functions, whenever the fuel suffices (some fuel always does; results are fuel-monotone). Every implementation output is also compared with `opt` inside Coq and with a brute-force optimum.",
+         "optimality and termination proof of an executable model of the RAIRE search in Coq; output-for-output differential check; verified optimum checker on every implementation output; brute-force oracle", "4 C15"),
  "C16": ("Theorems on the SampleSize model (tiling, first crossing, prefix invariance given non-anticipation, overstatement layout, interleave counts, contest maximum); correspondence with sample_size / find_sample_size / interleave_values; independent re-derivation oracle.",
          "list lemmas in Coq on top of the NNM model; differential check; independent re-construction oracle", "4 C16"),
  "C17": ("Theorems for all manifests (bijection between valid numbers and (batch, position) pairs for both vendors, phantom batch, prep_manifest totals/refusals); correspondence on real pandas frames incl. exhaustive small manifests; oracle.",
